@@ -16,6 +16,7 @@ changes nothing (snapshot and re-saved bytes equal the unedited file's); module 
 are those in the file.
 """
 import itertools
+from struct import pack
 import os
 
 from checks import c03, common as C
@@ -240,6 +241,7 @@ def gen_file(case):
         for pt in pats:
             if pt is not None and pt.get("kind") != "clone":
                 pt["cells"][1][0] = [33, 64, case["cell_module"], 0x0203, 0x0405]
+                pt["cells"][0][1] = [0, 0, case["cell_module"], 0, 0]        # a cell that holds NOTHING but a module number
     p = absdev.make_project(name="gen", modules=mods, patterns=pats)
     if "versions" in case:
         p["sunvox_version"], p["based_on_version"] = case["versions"]
@@ -261,6 +263,21 @@ def check_file(data, case, key):
         obj = C.load_bytes(data)
     except Exception as e:
         return [C.viol("well-formed-file-not-loadable", dict(key, exc=type(e).__name__), {"error": repr(e)[:300]}, case)], "raise"
+    # the same bytes found in the MIDDLE of a stream the caller has used before (its own header in front, the stream
+    # positioned at the start of the file): the loader starts where the stream stands
+    try:
+        import io
+
+        f_ = io.BytesIO(b"caller's own header\0" + data + b"trailer")
+        f_.seek(20)
+        from rv.api import read_sunvox_file
+
+        obj_off = read_sunvox_file(f_)
+        d_off = S.diff(S.snapshot(obj), S.snapshot(obj_off))
+        if d_off:
+            vs.append(C.viol("load-depends-on-stream-offset", dict(key, path=S.generic_path(d_off[0][0])), {"diff": S.diff_text(d_off)}, case))
+    except Exception as e:
+        vs.append(C.viol("load-depends-on-stream-offset", dict(key, exc=type(e).__name__), {"error": repr(e)[:200]}, case))
     d = compare_loaded(obj, dec.value, dec.present)
     if d:
         k2 = {"smooth_scale": True} if smooth_scale_only(d, dec.value) else dict(key, path=S.generic_path(d[0][0]))
@@ -279,6 +296,11 @@ def edits(data, nested=True):
     for pos in positions_for_insert(chunks):
         new = chunks[:pos] + [UNKNOWN] + chunks[pos:]
         yield f"insert@{pos}", "insert:" + (chunks[pos - 1][0].decode("latin1") if pos else "BOF") + "|" + (chunks[pos][0].decode("latin1") if pos < len(chunks) else "EOF"), codec.build_chunks(new), "insert"
+    # unknown ids that LOOK like known ones (a byte of a known id replaced by NUL / punctuation / a high byte, other case)
+    for uid in (b"BPM\0", b"B.PM", b"\0BPM", b"bpm ", b"NAM\xff", b"SP\x80D", b"CVA\0", b"SFF\0", b"PDT\0"):
+        for pos in sorted({1, len(chunks) // 2, len(chunks) - 1}):
+            new = chunks[:pos] + [(uid, pack("<I", 77))] + chunks[pos:]
+            yield f"lookalike@{pos}:{uid.hex()}", "insert-lookalike:" + uid.hex(), codec.build_chunks(new), "insert"
     for i, (cid, d) in enumerate(chunks):
         if cid in OPTIONAL:
             yield f"drop@{i}:{cid.decode()}", "drop:" + cid.decode(), codec.build_chunks(chunks[:i] + chunks[i + 1:]), "drop"
